@@ -98,6 +98,8 @@ def run_case(case, ctx):
     cls = case["g"]
     ncand = 0
     found = []
+    o0, _ = S.opts(case, L)
+    C.perturb(ctx, case["t"], ts, {k: v for k, v in o0.items() if k != "timeout"})
     for lat in ((True, False) if case["o"].get("latent_time", True) else (False,)):
         o, _ = S.opts(case, L)
         o["latent_time"] = lat
